@@ -243,9 +243,11 @@ Section FilterbufSink.
              if ok then (sink', [c], false) else (sink', buf, true)
     end.
   Definition fbs_write (st : list N * list N * bool) (piece : list N) := fold_left fbs_putc piece st.
+  (* release(): when the stream has failed the put area (still holding what could not be delivered) is NOT converted
+     again (repaired in 4925ae6) and -1 is returned; otherwise the rest is converted *)
   Definition fbs_release (st : list N * list N * bool) : list N * bool :=
     match st with
-    | (sink, buf, failed) => let (sink', ok) := fbs_conv sink buf in (sink', ok && negb failed)
+    | (sink, buf, failed) => if failed then (sink, false) else fbs_conv sink buf
     end.
   Definition fbs_run (pieces : list (list N)) : list N * bool :=
     fbs_release (fold_left fbs_write pieces ([], [], false)).
@@ -399,3 +401,79 @@ Definition filter_base64_stream_ok (room : nat) (pieces : list (list N)) : bool 
    base64_urlencode: nothing reaches the steal_buffer, the encoding of the empty string is written (nothing) *)
 Definition filter_on_failed_stream (F : list N -> list N) (v : list N) : list N * bool := fbs_run_failed F 0 [v].
 Definition filter_base64_on_failed_stream (v : list N) : list N * bool := (b64encode [], false).
+
+(* ---------- sinks whose failure need not be permanent ----------
+   A sink is an accept-function: acc idx len req = how many bytes of the request it takes (capped at the length of the
+   request), where idx = number of calls made so far (one call = one sputn / one sputc, refused ones included), len = bytes
+   in the sink so far.  A call is refused when fewer bytes than requested are taken (sputn returns a short count, sputc EOF). *)
+Section GenSink.
+  Variable acc : nat -> nat -> list N -> nat.
+  (* a sequence of write requests, made until the first one is refused: (calls made, sink content, all accepted) *)
+  Fixpoint calls_gs (idx : nat) (sink : list N) (reqs : list (list N)) : nat * list N * bool :=
+    match reqs with
+    | [] => (idx, sink, true)
+    | q :: r =>
+        let k := Nat.min (acc idx (List.length sink) q) (List.length q) in
+        if Nat.eqb k (List.length q) then calls_gs (S idx) (sink ++ q) r
+        else (S idx, sink ++ firstn k q, false)
+    end.
+  (* util::escape(b,e,streambuf&): one request per input byte (the entity with one sputn, any other byte with sputc),
+     return -1 at the first refused request.  util::urlencode(b,e,streambuf&): every output byte is one sputc through an
+     ostreambuf_iterator, which stops writing after the first refused byte. *)
+  Definition escape_gs (s : list N) : list N * bool :=
+    match calls_gs 0 [] (map esc1 s) with (_, sink, ok) => (sink, ok) end.
+  Definition urlencode_gs (s : list N) : list N * bool :=
+    match calls_gs 0 [] (map (fun b => [b]) (urlencode s)) with (_, sink, ok) => (sink, ok) end.
+
+  (* filterbuf<_,128> in front of such a sink; R chunk = the requests convert() makes for a chunk.
+     state: (calls made, sink, put area, failbit).  After a failed flush the put area is not emptied, every later write of
+     the value is blocked by the failed stream, and release() leaves the sink alone. *)
+  Variable R : list N -> list (list N).
+  Definition fbg_putc (st : nat * list N * list N * bool) (c : N) : nat * list N * list N * bool :=
+    match st with
+    | (idx, sink, buf, failed) =>
+        if failed then st
+        else if Nat.ltb (List.length buf) fb_cap then (idx, sink, buf ++ [c], false)
+        else match calls_gs idx sink (R buf) with
+             | (idx', sink', true) => (idx', sink', [c], false)
+             | (idx', sink', false) => (idx', sink', buf, true)
+             end
+    end.
+  Definition fbg_write (st : nat * list N * list N * bool) (piece : list N) := fold_left fbg_putc piece st.
+  (* (sink, stream good afterwards, release() returned 0): a failed stream is left alone (repaired in 4925ae6: before,
+     the put area was converted a second time) *)
+  Definition fbg_release (st : nat * list N * list N * bool) : list N * bool * bool :=
+    match st with
+    | (idx, sink, buf, failed) =>
+        if failed then (sink, false, false)
+        else match calls_gs idx sink (R buf) with (_, sink', ok) => (sink', ok, ok) end
+    end.
+  Definition fbg_run (pieces : list (list N)) : list N * bool * bool :=
+    fbg_release (fold_left fbg_write pieces (0%nat, [], [], false)).
+End GenSink.
+Definition R_escape (chunk : list N) : list (list N) := map esc1 chunk.
+Definition R_urlencode (chunk : list N) : list (list N) := map (fun b => [b]) (urlencode chunk).
+(* base64_urlencode: the recorded value is encoded and written with one ostream::write per 4-symbol block (the tail with
+   2 or 3); a short write sets badbit and the stream drops the rest *)
+Fixpoint chunks4 (fuel : nat) (l : list N) : list (list N) :=
+  match fuel with
+  | O => []
+  | S f => match l with [] => [] | _ => firstn 4 l :: chunks4 f (skipn 4 l) end
+  end.
+Definition filter_base64_gs (acc : nat -> nat -> list N -> nat) (pieces : list (list N)) : list N * bool * bool :=
+  let o := b64encode (List.concat pieces) in
+  match calls_gs acc 0 [] (chunks4 (List.length o) o) with (_, sink, ok) => (sink, ok, ok) end.
+
+(* the sinks of the harness: B room (accepts room bytes in total, writes prefixes), A budget (all-or-nothing per call
+   within a byte budget: a call that does not fit is refused, later smaller ones are accepted), K k (call number k is refused
+   once), T (every odd-numbered call is refused), P k m (call number k takes only its first m bytes) *)
+Inductive sink_spec := SBounded (room : nat) | SAllOrNothing (budget : nat) | SKthFails (k : nat) | SAlternate
+                     | SPartial (k m : nat).
+Definition acc_of (sp : sink_spec) (idx len : nat) (req : list N) : nat :=
+  match sp with
+  | SBounded room => room - len
+  | SAllOrNothing budget => if Nat.leb (len + List.length req) budget then List.length req else O
+  | SKthFails k => if Nat.eqb idx k then O else List.length req
+  | SAlternate => if Nat.odd idx then O else List.length req
+  | SPartial k m => if Nat.eqb idx k then m else List.length req
+  end.
